@@ -1,6 +1,7 @@
 import SageoptModel.Drv.Util
 import SageoptModel.Drv.Solvers
 import SageoptModel.Model.Compile
+import SageoptModel.Model.Recompile
 open Lean Sageopt Sageopt.Drv Sageopt.Compile
 
 namespace Sageopt.Drv.Compile
@@ -65,6 +66,45 @@ def compileH : Handler := fun j => do
     let (cv, off) ← compileObjective c.cols (← asSRow o)
     pure (base.mergeObj (Json.mkObj [("c", ratListJ cv), ("c_offset", ratJ off)]))
 
-def handlers : List (String × Handler) := [("compile.system", compileH)]
+def kindS : AtomKind → String
+  | .abs => "Abs" | .pos => "Pos" | .exp => "Exponential" | .relent => "RelEnt" | .norm2 => "Vector2Norm"
+
+def pairJ (p : Nat × Rat) : Json := Json.arr #[(p.1 : Nat), ratJ p.2]
+def argJ (x : AffArg) : Json := Json.mkObj [("co", listJ pairJ x.co), ("off", ratJ x.off)]
+def atomJ (a : NlAtom) : Json :=
+  Json.mkObj [("kind", kindS a.kind), ("args", listJ argJ a.args), ("epi", (a.epi : Nat))]
+def refJ : AtomRef → Json
+  | .var id => Json.mkObj [("v", (id : Nat))]
+  | .nl a => atomJ a
+def srowJ (r : SRow) : Json :=
+  Json.mkObj [("terms", listJ (fun (t : AtomRef × Rat) => Json.arr #[refJ t.1, ratJ t.2]) r.terms), ("off", ratJ r.off)]
+
+/-- only the mutable part of the state is reported: rows of elementwise constraints and the memory -/
+def econJ (e : ECon) : Json :=
+  match e.con with
+  | .elem isEq rows => Json.mkObj [("cls", "elem"), ("eq", isEq), ("rows", listJ srowJ rows), ("mem", listJ atomJ e.mem)]
+  | _ => Json.mkObj [("cls", "setmem"), ("mem", listJ atomJ e.mem)]
+
+def asECon (j : Json) : M ECon := do
+  let c ← asCon j
+  let mem ← match optField j "mem" with
+    | none => pure []
+    | some m => asList m fun a => do
+        match ← asAtomRef a with
+        | .nl x => pure x
+        | .var _ => throw "bad memory atom"
+  pure ⟨c, mem⟩
+
+def stepH : Handler := fun j => do
+  let cons ← asList (← getField j "cons") asECon
+  let dummy ← getNat j "dummy"
+  let vars ← asList (← getField j "vars") asVar
+  let (rows, K, cons') ← compileStep cons dummy
+  if rows.length ≠ (K.map (·.len)).sum then throw "RuntimeError: K and A disagree on the number of rows" else
+  let c := assemble rows K
+  let vm ← variableMap c.cols vars
+  pure ((compiledJ c vm).mergeObj (Json.mkObj [("post", listJ econJ cons')]))
+
+def handlers : List (String × Handler) := [("compile.system", compileH), ("compile.step", stepH)]
 
 end Sageopt.Drv.Compile
